@@ -521,3 +521,11 @@ func MatchKnown[S any](p *Prop[S], spec S, msg string) string { return matchKnow
 func WriteFail(id, name string, spec interface{}, msg string) {
 	writeCase(shardFile(name, "fail"), id, name, spec, "fail", msg, nil, "")
 }
+
+// WriteCurrent journals the case (or batch of cases) a non-rapid test is about to run.
+func WriteCurrent(id, name string, spec interface{}) {
+	writeCase(shardFile(name, "current"), id, name, spec, "current", "", nil, "")
+}
+
+// ClearCurrent removes the journal entry at the normal end of a non-rapid test.
+func ClearCurrent(name string) { os.Remove(shardFile(name, "current")) }
